@@ -15,7 +15,9 @@ PY
 import tomllib;u=tomllib.load(open('/verif/units/$u/unit.toml','rb'));print(' '.join(','.join(f) for f in (u.get('feature_sets') or [u.get('features',[])])))")
   for fs in $fsets; do
     tools/vx/target/release/vx gen --repo /repo --unit units/$u --out build/${u}_nb.rs --map build/${u}_nb.map.json --drop-beyond --features "$fs" $garg || { echo "$u [$fs]: extraction failed"; continue; }
-    r=$(cd build && verus --crate-type=lib ${u}_nb.rs --multiple-errors 5 2>&1 | grep "verification results")
+    rl=$(python3 -c "
+import tomllib;u=tomllib.load(open('/verif/units/$u/unit.toml','rb'));print(u.get('rlimit',30))")
+    r=$(cd build && verus --crate-type=lib ${u}_nb.rs --rlimit $rl --multiple-errors 5 2>&1 | grep "verification results")
     echo "$u [$fs]: $r"
   done
 done
